@@ -1466,3 +1466,157 @@ def check_C07(run):
         import subprocess as _sp
         _sp.run(['chmod', '-R', 'u+rwx', sb.dir]); sb.close()
     run.cov['trusted_base'] = C.GLOBAL_TRUST + ['"every I/O error the OS can produce" is bounded by the error kinds provoked here; the doer turning each failure into an Error response is validated by L3/L4, not proved']
+
+
+# ------------------------------------------------------------------ C08
+
+def tree_equal_mirror(src_snap, dst_snap):
+    """independent mirror comparison: same kinds, file bytes and mtimes, link texts"""
+    diffs = []
+    for p in set(src_snap) | set(dst_snap):
+        a, b = src_snap.get(p), dst_snap.get(p)
+        if a != b:
+            diffs.append((p.decode(errors='replace'), a, b))
+    return diffs
+
+
+@prop('C08')
+def check_C08(run):
+    from . import l3, l4
+    import shutil, resource, signal, subprocess
+    thorough = run.tier == 'thorough'
+    if not prepare(run, need_cli=True):
+        return
+    C.proofs_step(run, 'C08')
+    rng = run.rng
+    consts = run.extract_status.get('constants', {})
+    run.cov['rule'] = ('L3: the real doer receives multi-chunk files under RLIMIT_FSIZE (SIGXFSZ ignored) so that the write of a chosen chunk fails with EFBIG while all later chunks are already queued; '
+                       'final file (length, time-stamp class, completeness) = model; oracle: source mtime => source bytes. L4: the CLI (local doers) aborted at the n-th crash point for every n of a mixed sync '
+                       '(command boundaries and the sub-steps of writing a file), oracle on the snapshot, then a recovery run with overwriting permitted must give the mirror; non-trivial = a fault or crash was injected; distinct by (chunks, limit) / crash point')
+    # ---- L3 EFBIG
+    d = l3.scratch()
+    try:
+        os.makedirs(os.path.join(d, 'src'))
+        cases = []
+        lengths = [12388, 4096 + 8192, 4096 + 1, 30000, 5000] + ([rng.randint(4097, 70000) for _ in range(20)] if thorough else [rng.randint(4097, 40000) for _ in range(4)])
+        model_chunks = C.run_model([f'chunks {n}' for n in lengths])
+        for n, mc in zip(lengths, model_chunks):
+            chunks = [tuple(map(int, c.split(','))) for c in mc[1:-1].split(';')]
+            limits = sorted({1, chunks[0][0] - 1, chunks[0][0], chunks[0][0] + 1, n // 2, n - 1, n - 50 if n > 50 else 1})
+            for lim in limits:
+                if 0 < lim < n:
+                    for pre in (None, n + 500, 10):
+                        cases.append((n, chunks, lim, pre))
+        if not thorough:
+            cases = cases[::2]
+        src_mt = 1_600_000_000_123_456_789
+        old_mt = 1_000_000_000_000_000_000
+        by_limit = {}
+        for i, (n, chunks, lim, pre) in enumerate(cases):
+            data = l3.content(i, n)
+            l3.make_tree(os.path.join(d, 'src'), [(f'f{i}', 'F', data, src_mt)])
+            by_limit.setdefault(lim, []).append(i)
+        results = {}
+        for lim, idxs in by_limit.items():
+            droot = os.path.join(d, f'dst{lim}'); os.makedirs(droot)
+            lines = []
+            for i in idxs:
+                n, chunks, _, pre = cases[i]
+                if pre is not None:
+                    l3.make_tree(droot, [(f'f{i}', 'F', b'\xee' * min(pre, lim), old_mt)])
+                cmds, off = [['SR', C.X(droot)]], 0
+                srcfile = os.path.join(d, 'src', f'f{i}').encode().hex()
+                for ln, more in chunks:
+                    cmds.append(['CUF', C.X(f'f{i}'), f'f{srcfile}:{off}:{ln}', '-' if more else str(src_mt), str(more)]); off += ln
+                lines.append(l3.l3_line(cmds, 30000))
+            def limit():
+                signal.signal(signal.SIGXFSZ, signal.SIG_IGN)
+                resource.setrlimit(resource.RLIMIT_FSIZE, (lim, lim))
+            p = subprocess.run([C.HARNESS_BIN, '--verif'], input='\n'.join(lines) + '\n', capture_output=True, text=True, preexec_fn=limit, env=C.ENV, timeout=600)
+            answers = [l[3:] for l in p.stdout.split('\n') if l.startswith('@@ ')]
+            snap = l3.snapshot(droot)
+            for i, a in zip(idxs, answers + ['HARNESS-DIED'] * (len(idxs) - len(answers))):
+                results[i] = (a, snap.get(f'f{i}'.encode()))
+        mlines = []
+        for i, (n, chunks, lim, pre) in enumerate(cases):
+            faults, off, hit = [], 0, False
+            for ln, more in chunks:
+                if not hit and off + ln > lim:
+                    faults.append('w%d' % (lim - off)); hit = True
+                else:
+                    faults.append('n')
+                off += ln
+            mlines.append('recv %s %d %s %s' % ('-' if pre is None else str(min(pre, lim)), len(chunks), ' '.join(f'{ln} {more}' for ln, more in chunks), ' '.join(faults)))
+        model = C.run_model(mlines)
+        import hashlib
+        for i, ((n, chunks, lim, pre), m_ans) in enumerate(zip(cases, model)):
+            ans, ent = results.get(i, ('missing', None))
+            data = l3.content(i, n)
+            if ent is None:
+                got = 'absent'
+            else:
+                mt = 'src' if ent[3] == src_mt else ('old' if ent[3] == old_mt else 'fresh')
+                got = f'len={ent[1]} mt={mt} complete={int(ent[2] == hashlib.sha1(data).hexdigest())}'
+            run.case(('efbig', n, lim, pre), True, sample=dict(layer='L3', length=n, chunks=chunks, rlimit_fsize=lim, previous_dest_len=pre, impl=got, responses=ans[:200]))
+            run.count('efbig:' + got.split(' ')[1] if ' ' in got else 'efbig:absent'); run.cov['traces_validated_against_impl'] += 1
+            if ent is not None and ent[3] == src_mt and ent[2] != hashlib.sha1(data).hexdigest():
+                run.violation(dict(kind='oracle-failed-on-implementation', oracle='a destination file that carries the source mtime holds the source bytes', layer='L3',
+                                   length=n, chunks=chunks, rlimit_fsize=lim, previous_dest_len=pre, impl=got, model=m_ans, responses=ans[:500],
+                                   replay_hint='write of the chunk crossing the limit fails with EFBIG while the later chunks are already queued'))
+                break
+            if got != m_ans:
+                run.violation(dict(kind='correspondence-broken', correspondence='L3/file-receive', length=n, chunks=chunks, rlimit_fsize=lim, previous_dest_len=pre, impl=got, model=m_ans, responses=ans[:500]), no_input=True)
+                break
+        run.cov['disagreements_checked'] += len(cases)
+    finally:
+        shutil.rmtree(d, ignore_errors=True)
+    # ---- L4 crash points
+    sb = l4.Sandbox()
+    try:
+        def build(name):
+            base = os.path.join(sb.dir, name); os.makedirs(base)
+            src, dst = os.path.join(base, 'src'), os.path.join(base, 'dst')
+            l3.make_tree(src, [('', 'D'), ('big', 'F', l3.content(7, 12388), 2 * 10**18 + 5), ('small', 'F', b'small', 2 * 10**18 + 6), ('d', 'D'), ('d/x', 'F', l3.content(8, 4097), 2 * 10**18 + 7),
+                               ('l', 'L', 'small'), ('empty', 'F', b'', 2 * 10**18 + 8), ('same', 'F', b'same-bytes', 10**18)])
+            l3.make_tree(dst, [('', 'D'), ('big', 'F', b'old big content that is longer ' * 1000, 10**18), ('small', 'D'), ('small/inside', 'F', b'i', 10**18), ('gone', 'F', b'g', 10**18),
+                               ('same', 'F', b'same-bytes', 10**18), ('d', 'L', 'big')])
+            return base, src, dst
+        flags = ['--dest-file-newer', 'overwrite', '--dest-file-older', 'overwrite', '--dest-entry-needs-deleting', 'delete', '--dest-root-needs-deleting', 'delete']
+        base, src, dst = build('count')
+        plog = os.path.join(sb.dir, 'points.log')
+        r = l4.run_cli([src + '/', dst + '/'] + flags, env=sb.env({'RJRSSYNC_VERIF_CRASH_AT': '0', 'RJRSSYNC_VERIF_POINT_LOG': plog}))
+        points = [l.split() for l in open(plog)] if os.path.exists(plog) else []
+        npoints = len(points)
+        run.cov['crash_points'] = dict(total=npoints, kinds=sorted({p[1] for p in points}))
+        if r['rc'] != 0 or npoints < 10:
+            run.violation(dict(kind='harness-problem', what='the crash-point hook did not log the expected points', rc=r['rc'], points=npoints, stderr=r['err'][-400:]), no_input=True)
+        src_snap = l3.snapshot(src)
+        todo = list(range(1, npoints + 1)) if thorough or npoints <= 60 else sorted(rng.sample(range(1, npoints + 1), 60))
+        for n in todo:
+            base, src, dst = build(f'crash{n}')
+            pre = l3.snapshot(dst)
+            r = l4.run_cli([src + '/', dst + '/'] + flags, env=sb.env({'RJRSSYNC_VERIF_CRASH_AT': str(n)}), timeout=60)
+            snap = l3.snapshot(dst)
+            bad = []
+            for p, e in snap.items():
+                s_ent = src_snap.get(p)
+                if e[0] == 'F' and s_ent and s_ent[0] == 'F' and e[3] == s_ent[3] and e[2] != s_ent[2] and pre.get(p) != e:
+                    bad.append(p.decode())
+            run.case(('crash', n), True, sample=dict(layer='L4', crash_point=n, kind=points[n - 1][1] if n <= len(points) else '?', rc=r['rc']) if n % 7 == 0 else None)
+            run.count('crash:' + (points[n - 1][1] if n <= len(points) else '?'))
+            if r['rc'] in (0,) or r['timeout']:
+                run.violation(dict(kind='harness-problem', what='the process did not abort at the crash point', crash_point=n, rc=r['rc']), no_input=True); break
+            if bad:
+                run.violation(dict(kind='oracle-failed-on-implementation', oracle='after a crash no destination file carries the source mtime with other bytes', layer='L4', crash_point=n,
+                                   point_kind=points[n - 1][1], files=bad)); break
+            r2 = l4.run_cli([src + '/', dst + '/'] + flags + ['--files-same-time', 'skip'], env=sb.env(), timeout=60)
+            diffs = tree_equal_mirror(l3.snapshot(src), l3.snapshot(dst))
+            if r2['rc'] != 0 or diffs:
+                run.violation(dict(kind='oracle-failed-on-implementation', oracle='re-running the sync with overwriting permitted converges to the mirror', layer='L4', crash_point=n,
+                                   point_kind=points[n - 1][1], rc=r2['rc'], diffs=diffs[:5], stderr=r2['err'][-500:])); break
+            shutil.rmtree(base, ignore_errors=True)
+    finally:
+        sb.close()
+    run.cov['trusted_base'] = C.GLOBAL_TRUST + ['create/write leave a wall-clock mtime that never equals a source mtime at ns resolution (assumption of the MT tags)',
+                                                'a power loss that reorders data and metadata writes inside the kernel is outside the model (the doer does not fsync); process death and write failures are inside',
+                                                'the recovery clause relies on C01 for "the re-run plans every incomplete file" (here: checked end to end at every crash point)']
